@@ -31,6 +31,15 @@ Every event is executed through `Cache.transaction(mode)` / the `Cache` command 
 cache, and every command also on a second `Cache` whose `Memory` started as a copy of the first ("direct").
 After each event the raw backend stores are read without touching them (the outside observer).
 
+Another client: `out <command>` is a command of ANOTHER client - issued through the same Cache in a context of its own, outside the
+task's transaction - and goes to the direct copy as well.  It only stands where the running transaction segment has issued no
+command yet (right after the outermost `enter`, after `commitnow` / `rollback`): whatever an earlier, finished segment did must not
+act on the store again (a key deleted and committed in the first segment and re-created by the other client is still there when the
+block ends).  `normalize` drops an `out` anywhere else.
+
+Values: besides ints, tokens, None and bytes the alphabet holds CONTAINER payloads (`t:500` a set, `t:501` an empty set, `t:504` a
+list, `t:505` an empty list - memhist.CONTAINERS; opaque tokens for the model).
+
 Fan-out: `fan gather|task|group <command> | <command> | ...` issues the commands from CHILD tasks that the body awaits inside the
 block - `await asyncio.gather(c1, c2, ...)`, `await asyncio.create_task(c)` one after the other, or an `asyncio.TaskGroup` - the
 usage of upstream's test_gather.  A child task inherits a copy of the context and with it the transaction: its commands are commands
@@ -184,19 +193,31 @@ def normalize(events: list[str]) -> list[str]:
     handle there), give every shared object one mode (that of its first use), close blocks left open with
     `exit ok`"""
     out, stack, modes = [], [], {}
+    fresh = False        # the running segment has issued no command yet: the only place for another client's `out`
     for e in events:
         w = e.split()
         if w[0] == "enter":
             kind = block_kind(w)
             if shared_name(kind):
                 e = f"enter {modes.setdefault(shared_name(kind), w[1])} {kind}"
+            if not stack:
+                fresh = True
             stack.append(kind)
         elif w[0] == "exit":
             if not stack:
                 continue
             stack.pop()
-        elif w[0] in ("rollback", "commitnow") and (not stack or stack[-1].startswith("dec")):
-            continue
+            if not stack:
+                fresh = False
+        elif w[0] in ("rollback", "commitnow"):
+            if not stack or stack[-1].startswith("dec"):
+                continue
+            fresh = True
+        elif w[0] == "out":
+            if not (stack and fresh):
+                continue
+        elif w[0] not in ("disable", "enable"):
+            fresh = False
         out.append(e)
     return out + ["exit ok"] * len(stack)
 
@@ -348,6 +369,7 @@ class TxRunner:
         self.disabled: set[str] = set()             # protocol words of the commands that are disabled right now
         self.seg_accepted: set[str] = set()         # write commands accepted into the running transaction segment
         self.seg_child_writes = False               # a child task wrote inside the running segment
+        self.seg_deleted_before: set[str] = set()   # keys an earlier, explicitly committed segment of the open block deleted
 
     def bump(self, k: str):
         self.stats[k] = self.stats.get(k, 0) + 1
@@ -604,6 +626,7 @@ class TxRunner:
         # `_transaction` and the disable sets are ContextVars: the direct copy lives in a context of its own, outside every
         # transaction of the task, which keeps what `disable` / `enable` did to it
         self.dctx = contextvars.copy_context()
+        self.octx = contextvars.copy_context()      # the other client's context (`out`)
         self.r_tx = _Exec(_SameObjects(self.cache), self.backend)
         self.r_d = _Exec(_SameObjects(self.direct), self.dbackend)
 
@@ -638,6 +661,26 @@ class TxRunner:
             self.trace.append(("init " + line, "ok " + await self.views()))
         else:
             self.trace.append((line, f"tx={a} direct={b} " + await self.views()))
+
+    async def _outside(self, line: str, w: list[str]):
+        """another client's command: the same Cache, a context of its own in which no transaction is open"""
+        loop = asyncio.get_running_loop()
+        try:
+            a = await loop.create_task(self.r_tx._exec(w), context=self.octx)
+        except Exception as exc:
+            a = f"X:{type(exc).__name__}"
+        try:
+            b = await loop.create_task(self.r_d._exec(w), context=self.dctx)
+        except Exception as exc:
+            b = f"X:{type(exc).__name__}"
+        self.bump("outside_write_while_block_open")
+        if self.after_explicit:
+            self.bump(f"outside_write_after_explicit_{self.after_explicit}")
+            txb = self._txb()
+            name = tx_name(w[1])
+            if name in self.seg_deleted_before:
+                self.bump("outside_write_of_a_key_an_earlier_segment_deleted")      # seeded C03-18
+        self.trace.append((line, f"tx={a} direct={b} " + await self.views()))
 
     async def _fan(self, line: str):
         """the commands of a `fan` line, each issued from a child task that is awaited here"""
@@ -679,12 +722,14 @@ class TxRunner:
         if w[0] == "disable":
             for p in prefixes:
                 self.cache.disable(*cmds, prefix=p)
+                self.octx.run(lambda p=p: self.cache.disable(*cmds, prefix=p))      # the other client's context (`out`)
                 self.dctx.run(lambda p=p: self.direct.disable(*cmds, prefix=p))
             self.disabled |= set(w[1:])
             self.bump("disable_inside_block" if self.frames else "disable_outside_block")
         else:
             for p in prefixes:
                 self.cache.enable(*cmds, prefix=p)
+                self.octx.run(lambda p=p: self.cache.enable(*cmds, prefix=p))
                 self.dctx.run(lambda p=p: self.direct.enable(*cmds, prefix=p))
             self.disabled -= set(w[1:])
         self.trace.append((line, "ok " + await self.views()))
@@ -742,6 +787,7 @@ class TxRunner:
                 if not self.frames:
                     self.after_reentry = False
                     self.after_explicit = ""
+                    self.seg_deleted_before = set()
                     self.seg_patterns, self.seg_marked = [], {}
                     self.seg_accepted = set()
                     self.seg_child_writes = False
@@ -796,6 +842,9 @@ class TxRunner:
                 return w[1]
             if w[0] in ("rollback", "commitnow"):
                 self._classify_end("explicit_rollback" if w[0] == "rollback" else "commitnow")
+                _t = self._txb()
+                if w[0] == "commitnow" and _t is not None:
+                    self.seg_deleted_before |= set(_t._to_delete)
                 res = "U"
                 try:
                     tx = next((t for t in reversed(self.txs) if t is not None), None)
@@ -820,6 +869,9 @@ class TxRunner:
                 continue
             if w[0] == "fan":
                 await self._fan(line)
+                continue
+            if w[0] == "out":
+                await self._outside(line, w[1:])
                 continue
             await self._command(line)
         return "ok"
@@ -916,6 +968,9 @@ def check_property(lines: list[str], answers: list[dict], ndc: dict) -> list[tup
             w = lines[i].split()
             if w[0] in ("enter", "exit"):
                 continue
+            if w[0] == "out":
+                v0 = parse_view(a["b"])      # another client's write: the store the transaction must leave alone is this one now
+                continue
             # C04: every command answers as the same command on the directly updated copy
             if "direct" in a and obs(lines[i], a["tx"]) != obs(lines[i], a["direct"]):
                 bad.append(("C04", i, f"`{lines[i]}` answered {a['tx']} inside the transaction, {a['direct']} on the directly updated copy"))
@@ -944,7 +999,7 @@ def check_property(lines: list[str], answers: list[dict], ndc: dict) -> list[tup
 # ----------------------------------------------------------------------------------------------------
 # generator
 
-VALS = ["i:0", "i:1", "i:2", "i:-1", "t:1", "t:2", "t:3", "n"]
+VALS = ["i:0", "i:1", "i:2", "i:-1", "t:1", "t:2", "t:3", "n", "t:500", "t:504"]     # t:500 a set {1, 2}, t:504 a list [1, 2]
 MODES = ["fast", "locked", "serializable"]
 
 
@@ -1048,6 +1103,11 @@ CONTROL_SETS = [["delmany"], ["setmany"], ["delmany", "delmatch"], ["setmany", "
                 ["getexpire"]]
 
 
+def gen_outside(rng) -> str:
+    k = rng.choice(USER_KEYS)
+    return rng.choice([f"out set {k} {rng.choice(VALS)} - a", f"out set {k} {rng.choice(VALS)} 80 a", f"out delete {k}", f"out incr {k} 1 -"])
+
+
 def gen_control(rng) -> str:
     """`disable` of a few commands (bulk commands more often than not), now and then `enable` of everything"""
     if rng.random() < 0.25:
@@ -1116,7 +1176,9 @@ def gen_events(rng, maxlen: int, crossing: bool) -> list[str]:
                 used += dt
                 ev.append(f"adv {dt}")
             elif r < 0.46:
-                ev.append(rng.choice(["rollback", "rollback", "commitnow"]))
+                ev.append(rng.choice(["rollback", "rollback", "commitnow", "commitnow"]))
+                if rng.random() < 0.5:
+                    ev.append(gen_outside(rng))                # another client writes while the block is still open
             elif r < 0.48:
                 ev.append(gen_control(rng))                    # ... or in the middle of one
             elif r < 0.56:
@@ -1369,3 +1431,40 @@ def multi_backend_cases():
                         ev = [f"enter {mode}", *script]
                         ev += ["commitnow", "set 2 t:1 - a", "delete 0", "exit ok"] if end == "commitnow" else [f"exit {end}"]
                         yield {"config": config, "init": ini + ["adv 3"], "events": ev + ["getmany 0 2 4", "getexpire 2"]}
+
+
+# ----------------------------------------------------------------------------------------------------
+# another client writes between two segments of a block; container values under expire - enumerated
+
+def outside_write_cases():
+    """first segment: one write of key 0 (delete / set / incr / delete_match / expire) ended by an explicit commit or rollback;
+    then ANOTHER CLIENT re-creates / overwrites / deletes key 0 or writes key 2; then a second segment (nothing / a read of key
+    0 / a write of key 4 / a write of key 0) and the block ends normally or by an exception - x 3 modes.  What the first
+    segment did is done (or undone) and must not act on the store again."""
+    firsts = ["delete 0", "set 0 t:9 - a", "incr 0 1 -", f"delmatch {enc('ka*')}", "expire 0 80", "delmany 0 2"]
+    outs = ["out set 0 t:7 - a", "out set 0 t:7 80 a", "out delete 0", "out set 2 t:7 - a"]
+    seconds = [[], ["get 0"], ["set 4 t:4 - a"], ["set 0 t:5 - xx"]]
+    for mode in MODES:
+        for f in firsts:
+            for mid in ("commitnow", "rollback"):
+                for o in outs:
+                    for sec in seconds:
+                        for end in ("ok", "exc"):
+                            if end == "exc" and sec != ["set 4 t:4 - a"]:
+                                continue
+                            yield {"config": "facade", "init": ["set 0 i:5 - a", "set 2 t:2 - a", "adv 3"],
+                                   "events": [f"enter {mode}", f, mid, o, *sec, f"exit {end}", "getmany 0 2 4", "getexpire 0"]}
+
+
+def container_cases():
+    """a stored key whose VALUE is a set / an empty set / a list / an empty list / a dict (with and without a ttl) x one command
+    of a transaction on it (expire, expire then get, set only-if-present, delete, incr - which raises) x 3 modes x the block
+    committed / left by an exception / cancelled; the outside observer sees value and deadline after every step"""
+    for val in ("t:500", "t:501", "t:504", "t:505", "t:506"):
+        for ttl in ("-", "83"):
+            for cmds in (["expire 0 16"], ["expire 0 80", "get 0", "getexpire 0"], ["set 0 t:1 - xx"], ["delete 0"], ["incr 0 1 -"],
+                         ["get 0", "expire 0 16", "set 2 t:504 8 a"]):
+                for mode in MODES:
+                    for end in ("ok", "exc", "cancel"):
+                        yield {"config": "facade", "init": [f"set 0 {val} {ttl} a", "adv 3"],
+                               "events": [f"enter {mode}", *cmds, f"exit {end}", "get 0", "getexpire 0"]}
